@@ -16,6 +16,8 @@ def _bad(s):
 
 def operand(s):
     s = s.strip()
+    if s.lower() in REGS or s.lower() in REGS32 or re.match(r"^(qword\s+)?\[", s, re.I):
+        s = s.lower() if "rel" not in s.lower() else s      # registers and size keywords are case-insensitive, labels are not
     if s in REGS:
         return {"k": "reg", "r": s}
     if s in REGS32:
@@ -63,9 +65,9 @@ def tokenize(text):
             out.append({"op": "label", "l": l})
             continue
         m = re.match(r"^(\w+)(\s+(.*))?$", code)
-        if not m or m.group(1) not in KNOWN:
+        if not m or m.group(1).lower() not in KNOWN:
             raise TokError("line %d: unknown instruction %r" % (ln, line))
-        mn, rest = m.group(1), (m.group(3) or "")
+        mn, rest = m.group(1).lower(), (m.group(3) or "")
         q = False
         if mn == "jmp" and rest.startswith("near "):
             out.append({"op": "jmpn", "a": [operand(rest[5:])]})
